@@ -87,9 +87,26 @@ class _WS:
         self.d.client.log.append(("tx", m))
 
 
+def pake_variants():
+    """the bodies an abstract `nofield` / `invalid` PAKE event is concretised with, one list per class; variant 0 is the
+    historical one, the others make each statement of the parsing raise each of its exception classes"""
+    from .mailbox_corr import unusable_pake_bodies, pake_stage
+    nofield, invalid = [b"{}"], [dict_to_bytes({"pake_v1": "53" + "ff" * 32})]
+    for k, b in sorted(unusable_pake_bodies().items()):
+        st = pake_stage(b)[0]
+        if st == "finish":
+            invalid.append(b)
+        elif st != "accepted":
+            nofield.append(b)
+    nofield += [b"\xff\xfe", b"[]", b'{"pake_v1": 5}', b'{"pake_v1": "zz"}', b"[" * 5000]
+    invalid += [b'{"pake_v1": "00"}', dict_to_bytes({"pake_v1": "53" + "02" + "00" * 31}), "REFLECT"]
+    return nofield, invalid
+
+
 class Direct:
-    def __init__(self, match=True, seed=0):
+    def __init__(self, match=True, seed=0, variant=0):
         self.match = match
+        self.variant = variant
         self.W = _World(seed)
         self.sent = []
         self.patches = [mock.patch.object(_rendezvous.internet, "ClientService", FakeService),
@@ -290,10 +307,12 @@ class Direct:
             else:
                 if phase == "pake":
                     pk = t[5] if len(t) > 5 else "good"
-                    if pk == "nofield":
-                        body = b"{}"
-                    elif pk == "invalid":
-                        body = dict_to_bytes({"pake_v1": "53" + "ff" * 32})
+                    if pk in ("nofield", "invalid"):
+                        bodies = pake_variants()[0 if pk == "nofield" else 1]
+                        body = bodies[self.variant % len(bodies)]
+                        if body == "REFLECT":
+                            ours = self._our("pake")
+                            body = bytes.fromhex(ours["body"]) if ours is not None else b"{}"
                     elif good or not self.match:
                         body = dict_to_bytes({"pake_v1": self.peer_msg.hex()})
                     else:       # a stranger's well-formed element
@@ -306,9 +325,9 @@ class Direct:
         return guard(lambda: rc.ws_message(fr))
 
 
-def replay_trace(lines, match=True, seed=0):
+def replay_trace(lines, match=True, seed=0, variant=0):
     """replays an abstract trace on a real client; returns a summary like mailbox_corr.summarize"""
-    with Direct(match=match, seed=seed) as D:
+    with Direct(match=match, seed=seed, variant=variant) as D:
         outcomes = []
         for l in lines:
             outcomes.append((l, D.event(l)))
